@@ -105,10 +105,10 @@ def coq_case(case, obs, sysname, flags):
     fl = model_flags(flags)
     tf = lambda v: "true" if v else "false"
     mfac = (10 * case["tol"]) if flags.get("gmres_mask_tol", True) else 10 * 2.220446049250313e-16      # zero_thresh = 10 * tol * overall_max
-    return ("{| gA := %s_A; gB := %s; gX0 := %s; gtol := %s; gmfac := %s; gm := %d%%N; gflag := %s; gfpad := %s; gfself := %s; gfzero := %s;\n"
+    return ("{| gA := %s_A; gB := %s; gX0 := %s; gtol := %s; gmfac := %s; gm := %d%%N; gflag := %s; gfpad := %s; gfself := %s; gfzero := %s; gfabs := %s;\n"
             "   geX := %s; geScale := %s; geSteps := %d%%N |}"
             % (sysname, L.cols(B, cplx), L.cols(X0, cplx), L.sc(case["tol"], cplx), L.sc(mfac, cplx), case["m"], tf(fl["gmres_square_H"]),
-               tf(fl["arnoldi_padding"]), tf(fl["arnoldi_breakdown_continues"]), tf(fl["gmres_zero_residual_nan"]),
+               tf(fl["arnoldi_padding"]), tf(fl["arnoldi_breakdown_continues"]), tf(fl["gmres_zero_residual_nan"]), tf(fl["arnoldi_absolute_clip"]),
                L.cols(X, cplx), "[" + ";".join(L.fl(s) for s in scales) + "]", obs["steps"]))
 
 
@@ -279,7 +279,7 @@ def _ge_solve(G, b):
     return x
 
 
-PINNED = dict(gmres_square_H=True, arnoldi_padding=True, arnoldi_breakdown_continues=True, gmres_zero_residual_nan=True)
+PINNED = dict(gmres_square_H=True, arnoldi_padding=True, arnoldi_breakdown_continues=True, gmres_zero_residual_nan=True, arnoldi_absolute_clip=True)
 
 
 def model_flags(flags):
@@ -322,18 +322,19 @@ def ref_gmres(A, B, X0, m, tol, dtype, flags, solve=True):
             h[:, j] = np.sum(np.conj(Q[:, :, j]) * new, axis=-1)
             new = new - h[:, [j]] * Q[:, :, j]
         norm = np.sqrt(np.sum((new.conj() * new).real, axis=-1))
-        margins.append(float(np.min(np.abs(norm - tol / 2) / (tol / 2))))
-        decisions.append((np.array(norm, dtype=np.longdouble), np.full(nc, tol / 2, dtype=np.longdouble)))
-        aq0 = np.sqrt(np.sum(np.abs(h if idx == 0 else H[:, :, 0]) ** 2, axis=-1) + (norm ** 2 if idx == 0 else 0))
-        rel = norm / np.where(aq0 == 0, 1, aq0)
-        abs_clip = abs_clip | ((norm <= tol / 2) & (rel > 1e-6) & ~done)
-        done = done | (norm <= tol / 2)
-        if fl["arnoldi_breakdown_continues"]:
-            new = new / np.maximum(norm[:, None], tol / 2.)
-        else:
-            new = np.where(norm[:, None] > tol / 2., new / np.maximum(norm[:, None], tol / 2.), 0)
         h[:, idx + 1] = norm
         H[:, :, idx] = h
+        aq0 = np.sqrt(np.sum(np.abs(H[:, :, 0]) ** 2, axis=-1))
+        thr = np.full(nc, tol / 2, dtype=norm.dtype) if fl["arnoldi_absolute_clip"] else tol / 2 * aq0     # breakdown threshold of this step
+        margins.append(float(np.min(np.abs(norm - thr) / np.maximum(thr, 1e-300))))
+        decisions.append((np.array(norm, dtype=np.longdouble), np.array(thr, dtype=np.longdouble)))
+        rel = norm / np.where(aq0 == 0, 1, aq0)
+        abs_clip = abs_clip | ((norm <= thr) & (rel > 1e-6) & ~done)
+        done = done | (norm <= thr)
+        if fl["arnoldi_breakdown_continues"]:
+            new = new / np.maximum(norm, thr)[:, None]
+        else:
+            new = np.where((norm > thr)[:, None], new / np.maximum(norm, thr)[:, None], 0)
         Q[:, :, idx + 1] = new
         idx += 1
     sq = fl["gmres_square_H"]
